@@ -29,7 +29,8 @@ RULE = ('cases: (shape) uid shape x logger kind x message/argument shape x MAC p
         'Test runs (test.logger, plug logger, state logger, framework logger), also with console '
         'logging (-vv) switched on; (sched) a thread '
         'that logs through run B / ends run B / starts a run is paused at every reached line '
-        'of openhtf/util/logs.py while another run ends / starts / logs, then released, and '
+        'of openhtf/util/logs.py, and right after each of its reads of the openhtf logger\'s handler '
+        'list, while another run ends / starts / logs, then released, and '
         'every run still open logs once more; (stress) two runs logging from 2-3 threads each '
         'under seeded yield injection while further runs start and end; (seq) 1-20 '
         'consecutive runs counting handlers; (exec_sched) a whole Test run whose executor thread '
@@ -454,6 +455,81 @@ def _run_test(case):
 _POINTS = {}
 
 
+class HandlersHook:
+  """Pause point *inside* a statement: the 'openhtf' logger's `handlers`
+  attribute becomes a property, and a read of it by thread LB can be held before
+  the value is used (a pre-emption between the read and the write of
+  `logger.handlers = logger.handlers + [h]`, which line events cannot split)."""
+  lock = threading.Lock()
+  armed = False
+  target_hit = None
+  hits = 0
+  paused = threading.Event()
+  resume = threading.Event()
+  installed = False
+
+  @classmethod
+  def install(cls):
+    if cls.installed:
+      return
+    lg = logging.getLogger('openhtf')
+    lg.__dict__['_vf_handlers'] = lg.__dict__.pop('handlers')
+
+    def get(self):
+      value = self.__dict__['_vf_handlers']
+      if cls.armed and threading.current_thread().name == 'LB':
+        with cls.lock:
+          cls.hits += 1
+          fire = cls.hits == cls.target_hit
+        if fire:
+          cls.paused.set()
+          cls.resume.wait(3.0)
+      return value
+
+    def set_(self, value):
+      self.__dict__['_vf_handlers'] = value
+
+    lg.__class__ = type('VfHookedLogger', (lg.__class__,),
+                        {'handlers': property(get, set_)})
+    cls.installed = True
+
+  @classmethod
+  def arm(cls, target_hit):
+    cls.install()
+    cls.hits = 0
+    cls.target_hit = target_hit
+    cls.paused.clear()
+    cls.resume.clear()
+    cls.armed = True
+
+  @classmethod
+  def disarm(cls):
+    cls.armed = False
+    cls.resume.set()
+
+  @classmethod
+  def run_action_at_pause(cls, action, wait_s=5.0, hold_s=0.2):
+    out = {'reached': False, 'blocked': False}
+    if not cls.paused.wait(wait_s):
+      cls.resume.set()
+      return out
+    out['reached'] = True
+    done = threading.Event()
+
+    def run():
+      try:
+        action()
+      finally:
+        done.set()
+    th = threading.Thread(target=run, name='vf-action', daemon=True)
+    th.start()
+    if not done.wait(hold_s):
+      out['blocked'] = True
+    cls.resume.set()
+    out['_thread'] = th
+    return out
+
+
 def run_sched(case):
   """Thread LB is paused inside logs.py while it logs through run B, closes
   run B or starts a new run; meanwhile another run ends / starts / logs.
@@ -494,13 +570,23 @@ def run_sched(case):
 
     if action == 'end_a_end_c':
       runs['C'] = Run('runC')
-    eng.arm(target)
+    attr = target is not None and target[0][1] == 'attr:openhtf.handlers:read'
+    eng.arm(None if attr else target)
     eng.enabled = True
+    if attr:
+      HandlersHook.arm(target[1])
+    elif target is None:
+      HandlersHook.arm(None)       # discovery: count LB's reads
     info = {'reached': False, 'blocked': False}
     try:
       tb = threading.Thread(target=paused_op, name='LB')
       tb.start()
-      if target is not None:
+      if attr:
+        r = HandlersHook.run_action_at_pause(act, wait_s=5, hold_s=0.2)
+        info.update(reached=r['reached'], blocked=r['blocked'])
+        if r.get('_thread'):
+          r['_thread'].join(10)
+      elif target is not None:
         r = eng.run_action_at_pause(act, wait_s=5, hold_s=0.2)
         info.update(reached=r['reached'], blocked=r['blocked'])
         if r.get('_thread'):
@@ -511,6 +597,8 @@ def run_sched(case):
     finally:
       eng.enabled = False
       eng.release()
+      info['attr_reads'] = HandlersHook.hits
+      HandlersHook.disarm()
     # every run still open must still capture
     for key, r in sorted(runs.items()):
       if r.open:
@@ -525,8 +613,12 @@ def run_sched(case):
 
   pkey = (action, op)
   if pkey not in _POINTS:
-    runs, _, _ = scenario(None)
-    _POINTS[pkey] = eng.points(max_hits=2)
+    runs, _, dinfo = scenario(None)
+    pts0 = eng.points(max_hits=2)
+    # plus: LB held right after each of its reads of the logger's handler list
+    pts0 += [(('LB', 'attr:openhtf.handlers:read', 0), h)
+             for h in range(1, min(dinfo.get('attr_reads', 0), 6) + 1)]
+    _POINTS[pkey] = pts0
     close_all(runs)
   pts = _POINTS[pkey]
   if case['idx'] >= len(pts):
